@@ -318,7 +318,8 @@ impl Group for Conn {
         let p: Vec<&str> = line.split(' ').collect();
         let (coll, _) = build(p[1], true);
         let Some(srv) = TestServer::try_start(coll) else { return "inconclusive: server did not start".into() };
-        let mut cl = StrictClient::new(std::net::TcpStream::connect(("127.0.0.1", srv.port)).unwrap());
+        let Some(stream) = crate::server::connect_retry(srv.port) else { srv.stop(); return "inconclusive: connect".into() };
+        let mut cl = StrictClient::new(stream);
         cl.stream.set_read_timeout(Some(std::time::Duration::from_secs(5))).unwrap();
         let names = parse_list(p[2]).unwrap();
         let mut observed = Vec::new();
